@@ -413,7 +413,7 @@ func runChild(p *Prop, tier string, seed uint64, cases []Case, variant string, i
 	cmd.Stderr = ef
 	cmd.Env = append(os.Environ(), "VERIF_CHILD=1", "VERIF_VARIANT="+variant, "VERIF_WORK="+work)
 	if variant == "race" {
-		cmd.Env = append(cmd.Env, "GORACE=halt_on_error=0 history_size=2 log_path="+base+".race")
+		cmd.Env = append(cmd.Env, "GORACE=halt_on_error=0 exitcode=0 history_size=2 log_path="+base+".race")
 	}
 	if variant == "asan" {
 		cmd.Env = append(cmd.Env, "ASAN_OPTIONS=detect_leaks=0:abort_on_error=0:halt_on_error=1")
